@@ -6,7 +6,20 @@ Every mutant is a realistic change that still compiles; whether it passes the re
 recorded separately (tools/mutants.py --repo-tests <name>)."""
 import subprocess, sys, os, time, json
 
-REPO = "/repo"
+VERIF = os.path.dirname(os.path.dirname(os.path.abspath(__file__)))
+REPO = os.environ.get("MUT_REPO", "/repo")
+
+def retarget():
+    """Point this copy of the verification tree at another checkout of the repository (isolated campaigns)."""
+    if REPO == "/repo":
+        return
+    files = ["bridge/Cargo.toml", "harness/Cargo.toml", "harness/src/programs.rs", "harness/src/c16.rs", ".cargo/config.toml"]
+    for f in files:
+        p = os.path.join(VERIF, f)
+        s = open(p).read()
+        s = s.replace('path = "/repo"', 'path = "%s"' % REPO).replace('path = \\"/repo\\"', 'path = \\"%s\\"' % REPO)
+        s = s.replace('"/repo/src/{f}"', '"%s/src/{f}"' % REPO).replace('target-dir = "/verif/target"', 'target-dir = "%s/target"' % VERIF)
+        open(p, "w").write(s)
 M = []
 def m(name, file, old, new, props, count=1):
     M.append(dict(name=name, file=file, old=old, new=new, props=props, count=count))
@@ -185,7 +198,8 @@ def revert():
 def main():
     args = [a for a in sys.argv[1:] if not a.startswith("--")]
     repo_tests = "--repo-tests" in sys.argv
-    log = open("/verif/notes/mutants.log", "a")
+    retarget()
+    log = open(os.path.join(VERIF, "notes/mutants.log"), "a")
     for mu in M:
         if args and not any(a in mu["name"] for a in args):
             continue
@@ -199,7 +213,7 @@ def main():
             res["repo-tests"] = r.stdout.strip().replace("\n", " ; ")
         else:
             for p in mu["props"]:
-                r = run(f"cd /verif && ./check {p} quick")
+                r = run(f"cd {VERIF} && ./check {p} quick")
                 viol = [l for l in r.stdout.splitlines() if l.startswith("VIOLATION")]
                 incon = [l for l in r.stderr.splitlines() if l.startswith("INCONCLUSIVE")]
                 res[p] = f"exit={r.returncode}" + (f" {viol[0].split('replay=')[-1].split('/')[-1]}" if viol else "") + (f" [{incon[0][:160]}]" if incon else "")
